@@ -19,6 +19,7 @@ package main
 
 import (
 	"fmt"
+	"strings"
 	"go/types"
 
 	"golang.org/x/tools/go/ssa"
@@ -33,6 +34,7 @@ type gor struct {
 	waitOn  []interface{} // objects this goroutine is blocked on
 	selSend []interface{} // channels it waits to SEND on inside a select (subset of waitOn)
 	isMain  bool
+	held    int // locks held (schedule exploration: no map-access preemption points inside a critical section)
 }
 
 type sched struct {
@@ -48,6 +50,8 @@ type sched struct {
 	mu       map[string]bool
 	rw       map[string]int // >0 readers, -1 writer
 	switches int
+	bound    int // >0: schedule exploration with at most this many preemptions (verif.Schedules)
+	preempts int
 }
 
 type abortGoroutine struct{}
@@ -132,6 +136,19 @@ func (in *Interp) handTo(g *gor) {
 func (in *Interp) exitGoroutine(g *gor) {
 	sc := in.sc
 	if len(sc.runq) > 0 {
+		func() {
+			// (a limit hit while choosing ends the path: deliver it to main)
+			defer func() {
+				if r := recover(); r != nil {
+					sc.abort = r
+				}
+			}()
+			in.pickNext()
+		}()
+		if sc.abort != nil {
+			in.handTo(sc.main)
+			return
+		}
 		next := sc.runq[0]
 		sc.runq = sc.runq[1:]
 		sc.cur = next
@@ -145,7 +162,9 @@ func (in *Interp) exitGoroutine(g *gor) {
 }
 
 // park blocks the current goroutine on the given objects until woken.
-func (in *Interp) park(on ...interface{}) {
+func (in *Interp) park(on ...interface{}) { in.parkOpt(true, on...) }
+
+func (in *Interp) parkOpt(pick bool, on ...interface{}) {
 	sc := in.sc
 	g := sc.cur
 	g.waitOn = on
@@ -157,6 +176,9 @@ func (in *Interp) park(on ...interface{}) {
 	if len(sc.runq) == 0 {
 		g.waitOn = nil
 		panic(pathEnd{"unsupported", "deadlock: all goroutines are blocked under the explored schedule (concurrency beyond one deterministic schedule is outside the model)"})
+	}
+	if pick {
+		in.pickNext()
 	}
 	next := sc.runq[0]
 	sc.runq = sc.runq[1:]
@@ -186,6 +208,56 @@ func (in *Interp) yield() {
 	g := sc.cur
 	sc.runq = append(sc.runq, g)
 	in.park()
+}
+
+// pickNext (schedule exploration): which runnable goroutine continues is a
+// choice; the chosen one is moved to the front of the run queue.
+func (in *Interp) pickNext() {
+	sc := in.sc
+	if sc.bound == 0 || len(sc.runq) < 2 || sc.aborting {
+		return
+	}
+	c := in.choose(len(sc.runq))
+	if c > 0 {
+		g := sc.runq[c]
+		copy(sc.runq[1:c+1], sc.runq[0:c])
+		sc.runq[0] = g
+	}
+}
+
+// schedPoint is a preemption point (before a lock/unlock, an atomic, a map
+// access, a channel operation, after a spawn): under schedule exploration the
+// current goroutine may be preempted here in favour of any runnable one, as
+// long as the preemption bound is not used up.
+func (in *Interp) schedPointMap(fr *frame) {
+	if sc := in.sc; sc != nil && sc.enabled && sc.bound > 0 && sc.cur.held == 0 {
+		in.schedPoint(fr)
+	}
+}
+
+func (in *Interp) schedPoint(fr *frame) {
+	sc := in.sc
+	if sc == nil || !sc.enabled || sc.bound == 0 || sc.preempts >= sc.bound || len(sc.runq) == 0 || sc.aborting {
+		return
+	}
+	c := in.choose(1 + len(sc.runq))
+	if c == 0 {
+		return
+	}
+	sc.preempts++
+	c--
+	if c > 0 {
+		g := sc.runq[c]
+		copy(sc.runq[1:c+1], sc.runq[0:c])
+		sc.runq[0] = g
+	}
+	if fr != nil {
+		in.curFrame = fr
+	}
+	// the preempted goroutine goes to the back; the chosen one is at the front
+	g := sc.cur
+	sc.runq = append(sc.runq, g)
+	in.parkOpt(false)
 }
 
 // wake makes every goroutine blocked on obj runnable.
@@ -279,7 +351,7 @@ func (in *Interp) gRecv(fr *frame, ch *Chan, elem types.Type) (Value, bool) {
 			return in.zero(elem), false
 		}
 		// let senders that wait in a select for a receiver re-evaluate
-		in.wake(ch)
+		in.wakeSelectSenders(ch)
 		in.park(ch)
 	}
 }
@@ -437,7 +509,20 @@ func init() {
 	wrap := func(name string, f lockFn, prev intrinsic) {
 		intrinsics[name] = func(in *Interp, fr *frame, fn *ssa.Function, a []Value) Value {
 			if in.sc != nil && in.sc.enabled {
+				isLock := strings.HasSuffix(name, "Lock")
+				release := strings.HasSuffix(name, "Unlock")
+				acquire := isLock && !release
+				if !release {
+					in.schedPoint(fr)
+				}
 				f(in, fr, ptrKey(a[0]))
+				if acquire {
+					in.sc.cur.held++
+				}
+				if release {
+					in.sc.cur.held--
+					in.schedPoint(fr)
+				}
 				return nil
 			}
 			return prev(in, fr, fn, a)
@@ -535,6 +620,11 @@ func init() {
 		}
 		return nil
 	}
+	intrinsics[verifPkg+".Schedules"] = func(in *Interp, fr *frame, fn *ssa.Function, a []Value) Value {
+		in.schedEnable()
+		in.sc.bound = int(in.concInt(a[0], "Schedules bound"))
+		return nil
+	}
 	intrinsics[verifPkg+".Goroutines"] = func(in *Interp, fr *frame, fn *ssa.Function, a []Value) Value {
 		if a[0].(*Term).cval == 1 {
 			in.schedEnable()
@@ -544,3 +634,12 @@ func init() {
 }
 
 var _ = fmt.Sprintf
+
+func init() {
+	intrinsics[verifPkg+".NativeRounds"] = func(in *Interp, fr *frame, fn *ssa.Function, a []Value) Value {
+		return in.tt.BVConst(1, 64)
+	}
+	intrinsics[verifPkg+".NativeInt"] = func(in *Interp, fr *frame, fn *ssa.Function, a []Value) Value {
+		return a[0]
+	}
+}
